@@ -29,6 +29,25 @@ def execute(spec, monitors, staged=None, check_values=True):
         "tasks": len(B.insts),
         "diag_writes": real.simenv.capture.nwrites,
     }
+    # service contract: an item the (fault-free) flush answered with a value holds exactly that value
+    ifaults = spec.get("faults", {}).get("items", {})
+    ffaults = spec.get("faults", {}).get("flushes", {})
+    seen_kind = {}
+    for rec in B.flushes:
+        seen_kind[rec["kind"]] = seen_kind.get(rec["kind"], 0) + 1
+        if ("%d#%d" % (rec["kind"], seen_kind[rec["kind"]])) in ffaults or "end" not in rec:
+            continue
+        for tok in rec["tokens"]:
+            it = B.items.get(tok)
+            if it is None or tok.startswith(("x", "s:")) or ("%d:%s" % (rec["kind"], it.key)) in ifaults:
+                continue
+            got = record.get(tok)
+            want = "%d:%s" % (rec["kind"], it.key)
+            if got is not None and (got[0] != "V" or got[1] != want):
+                m = "item %s was answered with the value %r by its (fault-free) flush but holds %r" % (tok, want, got[1] if got[0] == "V" else errtok(got[1]))
+                viol.append(("C05", "item-answer", m))
+                viol.append(("C01", "item-answer", m))
+                break
     res = {"violations": viol, "stats": stats, "B": B}
     real_out = ("V", repr(out[1])) if out[0] == "V" else ("E", errtok(out[1]))
     res["outcome"] = real_out
